@@ -118,6 +118,9 @@ func runActScript(script string, srvArgs ...string) (string, *fw.OracleFailure) 
 	fail := func(sig, msg string) (string, *fw.OracleFailure) {
 		return "scenario-failed:" + sig, &fw.OracleFailure{Sig: sig, Msg: msg}
 	}
+	avQuery := map[string]bool{}
+	checkStray := false
+	var strayOrc *fw.OracleFailure
 	dedicated := map[string]bool{}
 	nDedicated := 0
 	collect := func(wait time.Duration) {
@@ -139,6 +142,9 @@ func runActScript(script string, srvArgs ...string) (string, *fw.OracleFailure) 
 							c.result = "fail"
 						default:
 							c.result = fmt.Sprintf("resp/%d", sock.Int(e, "respSerial"))
+							if id := sock.Int(e, "respID"); id == 0x1003 {
+								c.result = fmt.Sprintf("resp/%d", sock.Int(e, "platformSeq"))
+							}
 							if id := sock.Int(e, "respID"); id == 0x0001 || id == 0x0104 {
 								// the response body echoes the platform serial of the command it answers
 								b := fw.UnHex(orDash(sock.Str(e, "respBody")))
@@ -236,6 +242,10 @@ func runActScript(script string, srvArgs ...string) (string, *fw.OracleFailure) 
 				cmdID, cmdBody = 0x8104, "-"
 				dedicated[tag] = true
 			}
+			if strings.HasSuffix(tok, "P") { // audio/video attribute query 0x9003: answered by 0x1003 (no echoed serial)
+				cmdID, cmdBody = 0x9003, "-"
+				avQuery[tag] = true
+			}
 			_ = srv.Command(fmt.Sprintf("send %s %s %d %s %d", tag, key, cmdID, cmdBody, to))
 			// wait until the command reached the terminal (or the call returned already: offline key)
 			if cl != nil {
@@ -273,8 +283,14 @@ func runActScript(script string, srvArgs ...string) (string, *fw.OracleFailure) 
 			if !c.returned && !c.short && !c.deflt {
 				c.answered = true
 			}
+			if avQuery[tok[1:]] {
+				body, respID = []byte{8, 1, 0, 1, 0x01, 0x40, 1, 98, 4, 4}, 0x1003
+			}
 			_ = cl.Send(frames.Build(frames.H{ID: respID, Phone: phone, Serial: termSerial}, body))
 			termSerial++
+			if respID != 0x0001 {
+				checkStray = true
+			}
 			// every action is awaited: the call this response belongs to returns (a fixed pause let a disconnect that
 			// follows overtake the writer on a loaded machine, and then the caller rightly sees "closed")
 			for dl := time.Now().Add(1500 * time.Millisecond); !c.returned && time.Now().Before(dl); {
@@ -284,6 +300,15 @@ func runActScript(script string, srvArgs ...string) (string, *fw.OracleFailure) 
 				}
 			}
 			time.Sleep(10 * time.Millisecond)
+			if checkStray {
+				// a response is the end of an exchange: the platform sends nothing back to the terminal for it
+				checkStray = false
+				if fs := cl.ReadFrames(1, 60*time.Millisecond); len(fs) > 0 {
+					if h, _, ok := frames.Parse(fs[0]); ok && strayOrc == nil {
+						strayOrc = &fw.OracleFailure{Sig: "active/reply-to-a-response", Msg: fmt.Sprintf("after its response to command %s the terminal received a frame 0x%04x from the platform", tok[1:], h.ID)}
+					}
+				}
+			}
 		case strings.HasPrefix(tok, "Q:"):
 			// the terminal answers several commands back to back: one write per response, a few milliseconds apart, none
 			// awaited before the next is sent (while the writer is busy, the reader takes the next response off the socket
@@ -368,6 +393,9 @@ func runActScript(script string, srvArgs ...string) (string, *fw.OracleFailure) 
 	sort.Strings(order)
 	var parts []string
 	orc := lateOrc
+	if orc == nil {
+		orc = strayOrc
+	}
 	for _, tag := range order {
 		c := calls[tag]
 		res := c.result
@@ -556,7 +584,7 @@ func genC12(r *fw.Rng, tier string, emit func(fw.Case)) {
 	// (zero-length strings in the middle / in last position, no parameter at all), alone, mixed with general responses,
 	// answered in the other order, and after a stray dedicated response
 	for _, s := range []string{"J,CaD,Ra", "J,CaD,CbD,Ra,Rb", "J,CaD,CbL,Rb,Ra", "J,CaD,V,Ra,H", "J,CaD,Ra,CbD,Rb,CcD,Rc,CdD,Rd,CeD,Re,CfD,Rf",
-		"J,CaL,CbD,CcD,Rc,Ra,Rb"} {
+		"J,CaL,CbD,CcD,Rc,Ra,Rb", "J,CaP,Ra,H", "J,CaP,Ra,CbP,Rb,CcL,Rc", "J,CaD,Ra,CbP,Rb,H"} {
 		emit(fw.Case{Op: "act", Args: []string{s}})
 	}
 	// responses arriving back to back while the writer is slow (own server instance with a slow write callback)
